@@ -1,4 +1,5 @@
 import TakVerif.Proofs.SymBasic
+import TakVerif.Proofs.SymRaw
 import TakVerif.Impl.Symmetry
 
 /-! The model of `TransformMove` (int8 arithmetic, direction re-derived from a unit step) is the
@@ -42,14 +43,11 @@ theorem Symm.app_eq {n : Nat} (hn : n ≤ 8) (w : Symm) {x y : Int} (hx : SafeC 
     simp only [Symm.app, Symm.prod, e, Sym.mul_app]
     exact ⟨e', s1', s2'⟩
 
-/-- **`TransformMove` is the list-level action** (and does not panic) for every word of the basic maps,
-on every move whose coordinates lie in `[-100, 100]` (in particular every move with an on-board origin,
-legal or not, with any type code and any drop word). -/
-theorem transformMove_spec {n : Nat} (hn : n ≤ 8) (w : Symm) (m : Move)
+/-- **`TransformMove` computes `Sym.raw`** (and does not panic) for every word of the basic maps, on every
+raw move whose coordinates lie in `[-100, 100]`. -/
+theorem transformMove_raw {n : Nat} (hn : n ≤ 8) (w : Symm) (m : Move)
     (hx : -100 ≤ m.x ∧ m.x ≤ 100) (hy : -100 ≤ m.y ∧ m.y ≤ 100) :
-    ∃ m', transformMove n w m = .ok m' ∧
-      Spec.decode m' = Sym.move (Symm.prod w) n (Spec.decode m) ∧
-      (m'.x, m'.y) = (Symm.prod w).app n m.x m.y := by
+    transformMove n w m = .ok (Sym.raw (Symm.prod w) n m) := by
   have sx : SafeC n m.x := by unfold SafeC; omega
   have sy : SafeC n m.y := by unfold SafeC; omega
   obtain ⟨e0, -, -⟩ := Symm.app_eq hn w sx sy
@@ -61,17 +59,11 @@ theorem transformMove_spec {n : Nat} (hn : n ≤ 8) (w : Symm) (m : Move)
       simp [Move.isSlide, Facts.mtSlideLeft, Facts.mtSlideDown]
       omega
     simp only [hns, if_true]
-    refine ⟨_, rfl, ?_, rfl⟩
-    simp only [Spec.decode, Facts.mtPlaceFlat, Facts.mtPlaceStanding, Facts.mtPlaceCapstone, Facts.mtSlideLeft,
-      Facts.mtSlideRight, Facts.mtSlideUp, Facts.mtSlideDown]
-    by_cases h2 : m.type = 2
-    · simp [h2, Sym.move]
-    by_cases h3 : m.type = 3
-    · simp [h3, Sym.move]
-    by_cases h4 : m.type = 4
-    · simp [h4, Sym.move]
-    have : m.type ≠ 5 ∧ m.type ≠ 6 ∧ m.type ≠ 7 ∧ m.type ≠ 8 := by omega
-    simp [h2, h3, h4, this.1, this.2.1, this.2.2.1, this.2.2.2, Sym.move]
+    have hnd : dirOf m.type = none := by
+      have : m.type ≠ 5 ∧ m.type ≠ 6 ∧ m.type ≠ 7 ∧ m.type ≠ 8 := by omega
+      simp [dirOf, Facts.mtSlideLeft, Facts.mtSlideRight, Facts.mtSlideUp, Facts.mtSlideDown, this.1, this.2.1,
+        this.2.2.1, this.2.2.2]
+    simp [Sym.raw, hnd]
   · have ht : m.type = 5 ∨ m.type = 6 ∨ m.type = 7 ∨ m.type = 8 := Classical.not_not.mp ht'
     have hns : (!m.isSlide || decide (m.type > Facts.mtSlideDown)) = false := by
       simp [Move.isSlide, Facts.mtSlideLeft, Facts.mtSlideDown]
@@ -95,29 +87,32 @@ theorem transformMove_spec {n : Nat} (hn : n ≤ 8) (w : Symm) (m : Move)
     have suy : SafeC n (m.y + d.dy) := by cases d <;> simp [SafeC, Dir.dy] <;> omega
     obtain ⟨e1, -, -⟩ := Symm.app_eq hn w sux suy
     simp only [e1, Sym.app_step]
-    have hdec : Spec.decode m = .slide m.x m.y d (Slides.elems m.slides) := by
-      cases d <;> simp [Spec.decode, hd, dirCode, Facts.mtPlaceFlat, Facts.mtPlaceStanding, Facts.mtPlaceCapstone,
-        Facts.mtSlideLeft, Facts.mtSlideRight, Facts.mtSlideUp, Facts.mtSlideDown]
-    rw [hdec]
-    simp only [Sym.move]
+    have hdo : dirOf m.type = some d := by rw [hd]; exact dirOf_dirCode d
+    simp only [Sym.raw, hdo]
     generalize (Symm.prod w).app n m.x m.y = o
     generalize (Symm.prod w).dir d = d'
     cases d'
     · have a1 : o.1 + -1 < o.1 := by omega
-      have a2 : o.1 + -1 ≠ o.1 := by omega
-      simp [Dir.dx, Dir.dy, a1, Spec.decode, Facts.mtPlaceFlat, Facts.mtPlaceStanding, Facts.mtPlaceCapstone,
-        Facts.mtSlideLeft, Facts.mtSlideRight, Facts.mtSlideUp, Facts.mtSlideDown]
+      simp [Dir.dx, Dir.dy, a1, dirCode]
     · have a1 : ¬ (o.1 + 1 < o.1) := by omega
-      have a2 : o.1 + 1 ≠ o.1 := by omega
       have a3 : o.1 < o.1 + 1 := by omega
-      simp [Dir.dx, Dir.dy, a1, a3, Spec.decode, Facts.mtPlaceFlat, Facts.mtPlaceStanding, Facts.mtPlaceCapstone,
-        Facts.mtSlideLeft, Facts.mtSlideRight, Facts.mtSlideUp, Facts.mtSlideDown]
+      simp [Dir.dx, Dir.dy, a1, a3, dirCode]
     · have a1 : o.2 < o.2 + 1 := by omega
-      simp [Dir.dx, Dir.dy, a1, Spec.decode, Facts.mtPlaceFlat, Facts.mtPlaceStanding, Facts.mtPlaceCapstone,
-        Facts.mtSlideLeft, Facts.mtSlideRight, Facts.mtSlideUp, Facts.mtSlideDown]
+      simp [Dir.dx, Dir.dy, a1, dirCode]
     · have a1 : ¬ (o.2 < o.2 + -1) := by omega
       have a2 : o.2 + -1 < o.2 := by omega
-      simp [Dir.dx, Dir.dy, a1, a2, Spec.decode, Facts.mtPlaceFlat, Facts.mtPlaceStanding, Facts.mtPlaceCapstone,
-        Facts.mtSlideLeft, Facts.mtSlideRight, Facts.mtSlideUp, Facts.mtSlideDown]
+      simp [Dir.dx, Dir.dy, a1, a2, dirCode]
+
+/-- **`TransformMove` is the list-level action** (and does not panic) for every word of the basic maps,
+on every move whose coordinates lie in `[-100, 100]` (in particular every move with an on-board origin,
+legal or not, with any type code and any drop word). -/
+theorem transformMove_spec {n : Nat} (hn : n ≤ 8) (w : Symm) (m : Move)
+    (hx : -100 ≤ m.x ∧ m.x ≤ 100) (hy : -100 ≤ m.y ∧ m.y ≤ 100) :
+    ∃ m', transformMove n w m = .ok m' ∧
+      Spec.decode m' = Sym.move (Symm.prod w) n (Spec.decode m) ∧
+      (m'.x, m'.y) = (Symm.prod w).app n m.x m.y := by
+  refine ⟨_, transformMove_raw hn w m hx hy, decode_raw _ _ _, ?_⟩
+  unfold Sym.raw
+  cases dirOf m.type <;> rfl
 
 end Tak
